@@ -420,3 +420,47 @@ Qed.
 
 Lemma verilog_tail_signed neg num w passed : verilog_tail true neg num w passed = Err 1.
 Proof. reflexivity. Qed.
+
+(* ---------- statements exported to Props/C16.v ---------- *)
+Lemma int_accepts_iff_representable v w s :
+  (exists r, convert_int v (Some w) s = Ok r) <-> representable v w s.
+Proof.
+  rewrite convert_int_some. rewrite <- representableb_spec.
+  destruct (representableb v w s); split; intros H; try discriminate; eauto.
+  destruct H as [r H]. discriminate.
+Qed.
+
+Lemma int_encoding v w s n w' :
+  convert_int v (Some w) s = Ok (n, w') -> w' = w /\ n = v mod 2 ^ w.
+Proof.
+  rewrite convert_int_some. destruct (representableb v w s); [|discriminate].
+  intros H. inversion H. split; reflexivity.
+Qed.
+
+Lemma int_minimal_bitwidth v s : 0 <= v \/ s = true ->
+  exists w, convert_int v None s = Ok (v mod 2 ^ w, w) /\
+            representable v w s /\ forall w', representable v w' s -> w <= w'.
+Proof.
+  intros H. destruct (Z.lt_ge_cases v 0) as [Hv|Hv].
+  - destruct H as [H|H]; [lia|]. subst s.
+    destruct (convert_int_none_neg_signed v Hv) as [w [E [Hr Hm]]]. exists w. auto.
+  - destruct (convert_int_none_nonneg v s Hv) as [w [E [Em [Hr Hm]]]]. exists w. rewrite <- Em. auto.
+Qed.
+
+Lemma int_negative_needs_width_or_signed v : v < 0 -> convert_int v None false = Err 2.
+Proof. exact (convert_int_none_neg_unsigned v). Qed.
+
+Lemma twos_accepts_iff v w :
+  (exists r, twos_comp_repr v w = Ok r) <-> (1 <= w /\ - 2 ^ (w - 1) < v < 2 ^ (w - 1)).
+Proof.
+  rewrite twos_comp_repr_eq. split.
+  - intros [r H]. revert H. destruct (1 <=? w) eqn:E1; [|discriminate]. cbn [andb].
+    destruct (Z.abs v <? 2 ^ (w - 1)) eqn:E2; [|discriminate]. intros _. lia.
+  - intros [Hw Hr]. replace (1 <=? w) with true by lia. replace (Z.abs v <? 2 ^ (w - 1)) with true by lia. cbn [andb]. eauto.
+Qed.
+
+Lemma twos_encoding v w r : twos_comp_repr v w = Ok r -> r = v mod 2 ^ w.
+Proof.
+  rewrite twos_comp_repr_eq. destruct ((1 <=? w) && (Z.abs v <? 2 ^ (w - 1))); [|discriminate].
+  intros H. inversion H. reflexivity.
+Qed.
